@@ -236,6 +236,21 @@ pub fn search(seed: u64, n: u64) {
         stats.count(&format!("class.{}", if class.is_empty() { "corpus_generic" } else { class }));
         check_pair(&mut stats, a, b, class, "corpus");
     }
+    // small, tightly curved pairs (a few units across, all eight control points around one centre): both curves are still
+    // curved at the 0.1-unit scale, so the search has to converge by clipping alone and never reaches the straight-line solve
+    // (own random stream, so the inputs of the classes below do not move)
+    let mut rng_small = Rng(seed ^ 0x5A11C02);
+    for _ in 0..n / 4 {
+        let c = Coord2(rng_small.r(5.0, 95.0), rng_small.r(5.0, 95.0));
+        let size = [0.5, 1.0, 2.0, 3.0, 5.0][rng_small.i(5) as usize];
+        let mut pt = |rng: &mut Rng| Coord2(c.0 + rng.r(-size, size), c.1 + rng.r(-size, size));
+        let a: Cubic = [pt(&mut rng_small), pt(&mut rng_small), pt(&mut rng_small), pt(&mut rng_small)];
+        let b: Cubic = [pt(&mut rng_small), pt(&mut rng_small), pt(&mut rng_small), pt(&mut rng_small)];
+        stats.count("class.small_tight");
+        let crossing = crossings(&a, &b).map(|c| !c.is_empty()).unwrap_or(false);
+        stats.case(&format!("small_tight size={} a={:?} b={:?}", size, a, b), crossing);
+        check_pair(&mut stats, &a, &b, "small_tight", &format!("size{}", size));
+    }
     for _ in 0..n {
         let (a, b, class, kinds) = gen_pair_of_curves(&mut rng, &mut stats);
         stats.count(&format!("class.{}", if class.is_empty() { "generic" } else { class }));
